@@ -118,6 +118,11 @@ pub fn from_options(r: &json_syntax::print::Options) -> rp::Opts {
 /// `step_by`, `skip`, `fold`. `want` is what repeated `next()` must yield (computed by the caller
 /// from a linear scan); `make` builds a fresh iterator. An implementation that overrides any of
 /// these methods must agree with the default ones.
+/// Whether `iterator_protocol` also runs the second battery (the ~25 further provided consumers
+/// and adaptors). Callers that audit millions of states switch it off for the repetitions of a
+/// search that differ only in the hash function.
+pub static EXTENDED_BATTERY: std::sync::atomic::AtomicBool = std::sync::atomic::AtomicBool::new(true);
+
 pub fn iterator_protocol<I, T, F>(what: &str, make: F, want: &[T]) -> Result<(), String>
 where
     I: Iterator<Item = T>,
@@ -126,6 +131,15 @@ where
 {
     let n = want.len();
     let bad = |m: String| Err(format!("{what}: {m} (a linear scan gives {want:?})"));
+    // (first of all: the iterator ends - everything below consumes it without a bound)
+    let mut it = make();
+    let mut steps = 0usize;
+    while it.next().is_some() {
+        steps += 1;
+        if steps > n + 2 {
+            return bad(format!("next() still yields items after {steps} steps: the iterator does not end"));
+        }
+    }
     // next() and size_hint at every step
     let mut it = make();
     for i in 0..=n {
@@ -186,6 +200,9 @@ where
             return bad(format!("step_by({step}) yields {got:?}"));
         }
     }
+    if !EXTENDED_BATTERY.load(std::sync::atomic::Ordering::Relaxed) {
+        return Ok(());
+    }
     // the other provided consumers an impl may specialise: collect, for_each, find, position,
     // any, all, min_by / max_by / min_by_key / max_by_key (ranked by position in the scan, so that
     // no Ord on the items is needed: first item = smallest), partition, reduce, cmp-like eq
@@ -200,7 +217,9 @@ where
     }
     let rank = |x: &T| want.iter().position(|w| w == x).unwrap_or(usize::MAX);
     let rrank = |x: &T| want.iter().rposition(|w| w == x).unwrap_or(usize::MAX);
-    for (k, w) in want.iter().enumerate() {
+    // (every position of a short scan; the ends and the middle of a long one)
+    let picks: Vec<usize> = if n <= 16 { (0..n).collect() } else { vec![0, 1, n / 2, n - 2, n - 1] };
+    for (k, w) in picks.iter().map(|&k| (k, &want[k])) {
         let first = rank(w);
         if make().position(|x| x == *w) != Some(first) {
             return bad(format!("position(== item {k}) = {:?}", make().position(|x| x == *w)));
@@ -222,8 +241,9 @@ where
     if make().any(|_| false) || !make().all(|_| true) || make().position(|_| false).is_some() || make().find(|_| false).is_some() {
         return bad("any / all / position / find with a constant predicate".to_string());
     }
-    if n > 0 {
-        // (std: min_by returns the first of several minima, max_by the last of several maxima)
+    if n > 0 && n <= 64 {
+        // (std: min_by returns the first of several minima, max_by the last of several maxima;
+        // ranking is a linear search, hence the bound on n)
         let lo = make().min_by(|a, b| rank(a).cmp(&rank(b)));
         let hi = make().max_by(|a, b| rrank(a).cmp(&rrank(b)));
         let lo_k = make().min_by_key(|x| rank(x));
@@ -238,7 +258,7 @@ where
         if red.as_ref() != want.first() {
             return bad(format!("reduce(keep the first) = {red:?}"));
         }
-    } else if make().min_by(|_, _| std::cmp::Ordering::Equal).is_some() || make().reduce(|a, _| a).is_some() {
+    } else if n == 0 && (make().min_by(|_, _| std::cmp::Ordering::Equal).is_some() || make().reduce(|a, _| a).is_some()) {
         return bad("min_by / reduce on an empty iterator yield something".to_string());
     }
     let (even, odd): (Vec<T>, Vec<T>) = {
@@ -277,7 +297,7 @@ where
     if via_peek != want {
         return bad(format!("peekable yields {via_peek:?}"));
     }
-    for k in 0..=n {
+    for k in picks.iter().copied().chain([n]) {
         let taken: Vec<T> = make().take(k).collect();
         if taken != want[..k] {
             return bad(format!("take({k}) yields {taken:?}"));
@@ -298,6 +318,14 @@ where
     let n = want.len();
     let bad = |m: String| Err(format!("{what}: {m} (a linear scan gives {want:?})"));
     let rev_want: Vec<T> = want.iter().rev().cloned().collect();
+    let mut it = make();
+    let mut steps = 0usize;
+    while it.next_back().is_some() {
+        steps += 1;
+        if steps > n + 2 {
+            return bad(format!("next_back() still yields items after {steps} steps: the iterator does not end"));
+        }
+    }
     let got: Vec<T> = make().rev().collect();
     if got != rev_want {
         return bad(format!("rev() yields {got:?}"));
